@@ -13,7 +13,7 @@ open Lean Utv.J Utv.C11
 
 def tableOf (j : Json) : List (Json × Option Json) :=
   (arr! j).map fun p => match arr! p with
-    | [r, c] => (r, if isNull c then none else some c)
+    | r :: c :: _ => (r, if isNull c then none else some c)
     | _ => (Json.null, none)
 
 def parserOf (j : Json) : Parser Json := fun x => ((tableOf j).lookup x).getD none
@@ -88,7 +88,20 @@ def handleSeq (j : Json) : Json :=
     let viaRule : Except SeqErr Json → Except SeqErr (List Json)
       | .ok v => .ok (arr! v)
       | .error e => .error e
-    let model := if bool! (fld j "legacy") then parseSeqLegacyFrom k.subscriptable pol p 0 xs
+    -- a container that is a condition of a union (Optional[List[int]]): rows carry the element's conversion under
+    -- the strict and the no-data-loss preferences as well: [raw, common, strict, noLoss]
+    let col (i : Nat) : Parser Json := fun x =>
+      match (arr! (fld j "items")).find? (fun r => (arr! r).head? == some x) with
+      | some r => (match (arr! r)[i]? with | some c => if isNull c then none else some c | none => none)
+      | none => none
+    let pm : Mode → Parser Json := fun m => match m with | .common => col 1 | .strict => col 2 | .noLoss => col 3
+    let o : Opts := ⟨pol, .throw, .throw⟩
+    let viaUnion : Option Json → Except SeqErr (List Json)
+      | some v => .ok (arr! v)
+      | none => .error .coerce          -- every condition rejected: the union raises
+    let model := if bool! (fld j "union") then
+                   viaUnion (unionParse (!(bool! (fld j "legacy_union"))) o [seqBranch W k pm] Json.null)
+                 else if bool! (fld j "legacy") then parseSeqLegacyFrom k.subscriptable pol p 0 xs
                  else viaRule (parseSeqRuleC W k pol p cons Json.null)
     let W' : World Json := { W with asSeq := fun _ _ => some (removeOffenders p xs) }
     let strictClean := viaRule (parseSeqRuleC W' k .throw p cons Json.null)
@@ -125,12 +138,30 @@ def handleMap (j : Json) : Json :=
   let rows := arr! (fld j "items")
   let kvs := rows.map fun r => match arr! r with | k :: v :: _ => (k, v) | _ => (Json.null, Json.null)
   let ktab := rows.map fun r => match arr! r with
-    | [k, _, kc, _] => (k, if isNull kc then none else some kc) | _ => (Json.null, none)
+    | k :: _ :: kc :: _ => (k, if isNull kc then none else some kc) | _ => (Json.null, none)
   let vtab := rows.map fun r => match arr! r with
-    | [_, v, _, vc] => (v, if isNull vc then none else some vc) | _ => (Json.null, none)
+    | _ :: v :: _ :: vc :: _ => (v, if isNull vc then none else some vc) | _ => (Json.null, none)
   let kp : Parser Json := fun x => (ktab.lookup x).getD none
   let vp : Option (Parser Json) := if bool! (fld j "has_vt") then some (fun x => (vtab.lookup x).getD none) else none
-  let model := parseMap pk pv kp vp kvs
+  let colK (i : Nat) : Parser Json := fun x =>
+    match rows.find? (fun r => (arr! r).head? == some x) with
+    | some r => (match (arr! r)[i]? with | some c => if isNull c then none else some c | none => none)
+    | none => none
+  let colV (i : Nat) : Parser Json := fun x =>
+    match rows.find? (fun r => (arr! r)[1]? == some x) with
+    | some r => (match (arr! r)[i]? with | some c => if isNull c then none else some c | none => none)
+    | none => none
+  let W : World Json := { asSeq := fun _ _ => none, mkSeq := fun _ _ => Json.null,
+                          asMap := fun _ => some kvs, mkMap := fun l => jpairs l }
+  let kpm : Mode → Parser Json := fun m => match m with | .common => colK 2 | .strict => colK 4 | .noLoss => colK 6
+  let vpm : Option (Mode → Parser Json) := if bool! (fld j "has_vt") then
+      some (fun m => match m with | .common => colV 3 | .strict => colV 5 | .noLoss => colV 7) else none
+  let unpairs (v : Json) : List (Json × Json) := (arr! v).map fun p => match arr! p with | [a, b] => (a, b) | _ => (Json.null, Json.null)
+  let model := if bool! (fld j "union") then
+      (match unionParse (!(bool! (fld j "legacy_union"))) ⟨.throw, pk, pv⟩ [mapBranch W kpm vpm] Json.null with
+        | some v => .ok (unpairs v)
+        | none => .error .coerce)
+    else parseMap pk pv kp vp kvs
   -- C11_map_general
   let spec := parseMap .throw .throw (strictifyParser pk kp) (vp.map (strictifyParser pv))
     (kvs.filter fun kv => !mapExcluded pk pv kp vp kv)
